@@ -19,8 +19,12 @@ fn nseg(s: &str) -> Seg {
 }
 
 /// element values: no integer meets a float of equal value (the statement leaves that case open)
-fn gen_elem(src: &mut Src, depth: usize) -> J {
+fn gen_elem(src: &mut Src, depth: usize, floats: bool) -> J {
+    if floats && src.chance(2, 5) {
+        return J::Float(*src.pick(&[0.0, -0.0, 0.5, 1.5, -1.5, 2.5, 1e300]));
+    }
     match src.weighted(&[30, 25, 8, 8, if depth > 0 { 15 } else { 0 }, if depth > 0 { 14 } else { 0 }]) {
+        0 if floats => J::Float(*src.pick(&[0.0, -0.0, 0.5, 1.5, -1.5, 2.5])),
         0 => {
             if src.chance(1, 10) {
                 // distinct integers that collapse when converted to f64
@@ -34,7 +38,7 @@ fn gen_elem(src: &mut Src, depth: usize) -> J {
         3 => J::Bool(src.bool()),
         4 => {
             let n = src.below(3);
-            J::Arr((0..n).map(|_| gen_elem(src, depth - 1)).collect())
+            J::Arr((0..n).map(|_| gen_elem(src, depth - 1, floats)).collect())
         }
         _ => {
             let n = src.below(3);
@@ -42,7 +46,7 @@ fn gen_elem(src: &mut Src, depth: usize) -> J {
             for _ in 0..n {
                 let k = src.pick(&["a", "b"]).to_string();
                 if !m.iter().any(|(k2, _)| *k2 == k) {
-                    m.push((k, gen_elem(src, depth - 1)));
+                    m.push((k, gen_elem(src, depth - 1, floats)));
                 }
             }
             J::Obj(m)
@@ -50,9 +54,10 @@ fn gen_elem(src: &mut Src, depth: usize) -> J {
     }
 }
 
-fn gen_list(src: &mut Src) -> J {
-    let n = src.weighted(&[15, 20, 25, 20, 12, 8]);
-    J::Arr((0..n).map(|_| gen_elem(src, 1)).collect())
+fn gen_list(src: &mut Src, floats: bool) -> J {
+    // rarely a long list (beyond 16 / 32 / 64 elements)
+    let n = if src.chance(1, 12) { *src.pick(&[16usize, 17, 31, 32, 33, 40, 64, 65]) } else { src.weighted(&[15, 20, 25, 20, 12, 8]) };
+    J::Arr((0..n).map(|_| gen_elem(src, 1, floats)).collect())
 }
 
 /// something that is not an array (or nothing at all)
@@ -68,10 +73,16 @@ fn gen_non_array(src: &mut Src) -> Option<J> {
 }
 
 fn random_sets(src: &mut Src, obs: &mut Obs) -> Res {
+    // all numbers of one case are integers, or all are floats (zeros of both signs are one value):
+    // an integer never meets a float of equal value
+    let floats = src.chance(1, 6);
+    if floats {
+        obs.label("numbers-are-floats");
+    }
     let fname = *src.pick(&FUNCS);
     let elem_is_scalar_arg = fname == "in" || fname == "nin";
     // second argument: an array most of the time
-    let (bval, b_label): (Option<J>, &str) = if src.chance(1, 5) { (gen_non_array(src), "second-not-array-or-missing") } else { (Some(gen_list(src)), "second-array") };
+    let (bval, b_label): (Option<J>, &str) = if src.chance(1, 5) { (gen_non_array(src), "second-not-array-or-missing") } else { (Some(gen_list(src, floats)), "second-array") };
     let nelem = 1 + src.below(5);
     let mut elems = vec![];
     for _ in 0..nelem {
@@ -80,7 +91,7 @@ fn random_sets(src: &mut Src, obs: &mut Obs) -> Res {
             match (&bval, src.below(4)) {
                 (Some(J::Arr(l)), 0 | 1) if !l.is_empty() => Some(l[src.below(l.len())].clone()),
                 (_, 3) => None,
-                _ => Some(gen_elem(src, 1)),
+                _ => Some(gen_elem(src, 1, floats)),
             }
         } else {
             match (&bval, src.below(6)) {
@@ -91,12 +102,12 @@ fn random_sets(src: &mut Src, obs: &mut Obs) -> Res {
                 }
                 (Some(J::Arr(l)), 1) if !l.is_empty() => {
                     let mut v = vec![l[src.below(l.len())].clone()];
-                    v.push(gen_elem(src, 1));
+                    v.push(gen_elem(src, 1, floats));
                     Some(J::Arr(v))
                 }
                 (_, 2) => Some(J::Arr(vec![])),
                 (_, 3) => gen_non_array(src),
-                _ => Some(gen_list(src)),
+                _ => Some(gen_list(src, floats)),
             }
         };
         let mut m = vec![];
@@ -122,13 +133,23 @@ fn random_sets(src: &mut Src, obs: &mut Obs) -> Res {
             }
         }
     }
-    root.push(("e".into(), J::Arr(elems)));
-    let doc = J::Obj(root).sorted();
+    let elems_value = J::Arr(elems);
+    // also: the list reached through an index step, negative or not ($.ll[-1] and $.ll[1] are the same node)
+    let via_index = b_place == 0 && bval.is_some() && src.chance(1, 3);
+    if via_index {
+        if let Some(b) = &bval {
+            root.push(("ll".into(), J::Arr(vec![J::Arr(vec![J::Str("decoy".into())]), b.clone()])));
+        }
+    }
+    let idx_seg = |i: i64| Seg { desc: false, sels: vec![Sel::Index(i)], dot: false };
     let barg = match b_place {
+        0 if via_index => Arg::Q(Query { abs: true, segs: vec![nseg("ll"), idx_seg(if src.bool() { -1 } else { 1 })] }),
         0 => Arg::Q(Query { abs: true, segs: vec![nseg("l")] }),
         1 => Arg::Q(Query { abs: true, segs: vec![nseg("m"), nseg("n")] }),
         _ => Arg::Q(Query { abs: false, segs: vec![nseg("own")] }),
     };
+    root.push(("e".into(), elems_value));
+    let doc = J::Obj(root).sorted();
     let aarg = Arg::Q(Query { abs: false, segs: vec![nseg("k")] });
     let f = Func { name: fname.into(), args: vec![aarg, barg] };
     let neg = src.chance(1, 4);
@@ -141,24 +162,30 @@ fn random_sets(src: &mut Src, obs: &mut Obs) -> Res {
 
 /// first argument forms: `@` itself, `@[0]`, a primitive literal
 fn random_forms(src: &mut Src, obs: &mut Obs) -> Res {
-    let list = gen_list(src);
+    let floats = src.chance(1, 6);
+    let list = gen_list(src, floats);
     let fname = *src.pick(&["in", "nin"]);
     let nelem = 1 + src.below(5);
     let elems: Vec<J> = (0..nelem)
         .map(|_| match (&list, src.bool()) {
             (J::Arr(l), true) if !l.is_empty() => l[src.below(l.len())].clone(),
-            _ => gen_elem(src, 1),
+            _ => gen_elem(src, 1, floats),
         })
         .collect();
-    let form = src.below(3);
+    let form = src.below(4);
     let (aarg, elems): (Arg, Vec<J>) = match form {
+        3 => (
+            Arg::Q(Query { abs: false, segs: vec![Seg { desc: false, sels: vec![Sel::Index(-1)], dot: false }] }),
+            elems.into_iter().map(|x| if src.chance(1, 6) { J::Arr(vec![]) } else { J::Arr(vec![if floats { J::Float(9.5) } else { J::Int(9) }, x]) }).collect(),
+        ),
         0 => (Arg::Q(Query { abs: false, segs: vec![] }), elems),
         1 => (
             Arg::Q(Query { abs: false, segs: vec![Seg { desc: false, sels: vec![Sel::Index(0)], dot: false }] }),
-            elems.into_iter().map(|x| if src.chance(1, 6) { J::Arr(vec![]) } else { J::Arr(vec![x, J::Int(9)]) }).collect(),
+            elems.into_iter().map(|x| if src.chance(1, 6) { J::Arr(vec![]) } else { J::Arr(vec![x, if floats { J::Float(9.5) } else { J::Int(9) }]) }).collect(),
         ),
         _ => {
             let lit = match src.below(5) {
+                0 if floats => Lit::Num(num_lit_float(*src.pick(&[0.0, -0.0, 0.5, 1.5]))),
                 0 => Lit::Num(num_lit_int(src.range(0, 4))),
                 1 => Lit::Str(StrLit::plain(*src.pick(&["a", "b", "c", "", "1"]))),
                 2 => Lit::Null,
@@ -172,7 +199,7 @@ fn random_forms(src: &mut Src, obs: &mut Obs) -> Res {
     let f = Func { name: fname.into(), args: vec![aarg, Arg::Q(Query { abs: true, segs: vec![nseg("l")] })] };
     let e = Expr::Test(src.chance(1, 4), Box::new(TestE::F(f)));
     let q = Query { abs: true, segs: vec![nseg("e"), Seg { desc: false, sels: vec![Sel::Filter(e)], dot: false }] };
-    obs.label(["first-arg-@", "first-arg-@[0]", "first-arg-literal"][form]);
+    obs.label(["first-arg-@", "first-arg-@[0]", "first-arg-literal", "first-arg-@[-1]"][form]);
     check(&q, &doc, obs)
 }
 
